@@ -73,18 +73,17 @@ func runBytesBatch(r *vlib.Run, batchID string, cases []bytesCase, evalKeys bool
 			}
 			return m
 		}
-		cls := bytesClass(c.b)
 		fd := md.Fields().Get(i)
 		if !fd.HasDefault() {
 			r.Violation("bytes-default.missing", "no default on protocompile's descriptor", c.id, w(nil))
 			continue
 		}
 		if got := fd.Default().Bytes(); !bytes.Equal(got, c.b) {
-			r.Violation("bytes-default.protocompile-descriptor", "Default().Bytes() differs for bytes containing "+cls, c.id, w(map[string]any{"got_hex": fmt.Sprintf("%x", got)}))
+			r.Violation("bytes-default.protocompile-descriptor", "Default().Bytes() differs: "+diffClass(c.b, got), c.id, w(map[string]any{"got_hex": fmt.Sprintf("%x", got)}))
 			continue
 		}
 		if got := rmd.Fields().Get(i).Default().Bytes(); !bytes.Equal(got, c.b) {
-			r.Violation("bytes-default.go-runtime", "protodesc Default().Bytes() differs for bytes containing "+cls, c.id, w(map[string]any{"got_hex": fmt.Sprintf("%x", got)}))
+			r.Violation("bytes-default.go-runtime", "protodesc Default().Bytes() differs: "+diffClass(c.b, got), c.id, w(map[string]any{"got_hex": fmt.Sprintf("%x", got)}))
 			continue
 		}
 		dv := fdp.GetMessageType()[0].GetField()[i].GetDefaultValue()
@@ -94,48 +93,46 @@ func runBytesBatch(r *vlib.Run, batchID string, cases []bytesCase, evalKeys bool
 			continue
 		}
 		if !bytes.Equal(got, c.b) {
-			r.Violation("bytes-default.escaped-text", "default_value C-unescapes to other bytes, input contains "+cls, c.id, w(map[string]any{"got_hex": fmt.Sprintf("%x", got)}))
+			r.Violation("bytes-default.escaped-text", "default_value C-unescapes to other bytes: "+diffClass(c.b, got), c.id, w(map[string]any{"got_hex": fmt.Sprintf("%x", got)}))
 		}
 	}
 	return checked
 }
 
-// bytesClass is a coarse, stable description of what a byte string contains.
-func bytesClass(b []byte) string {
-	var fs []string
-	has := func(f func(c byte) bool) bool {
-		for _, c := range b {
-			if f(c) {
-				return true
-			}
-		}
-		return false
+// diffClass names the first byte that did not survive: a stable input class.
+func diffClass(want, got []byte) string {
+	i := 0
+	for i < len(want) && i < len(got) && want[i] == got[i] {
+		i++
 	}
-	if has(func(c byte) bool { return c < 0x20 }) {
-		fs = append(fs, "control")
+	if i >= len(want) {
+		return "extra bytes at the end"
 	}
-	if has(func(c byte) bool { return c == '"' || c == '\'' }) {
-		fs = append(fs, "quote")
+	c := want[i]
+	cls := ""
+	switch {
+	case c < 0x20:
+		cls = "control byte"
+	case c == '"' || c == '\'':
+		cls = "quote"
+	case c == '\\':
+		cls = "backslash"
+	case c == 0x7f:
+		cls = "DEL"
+	case c >= 0x80:
+		cls = "high byte"
+	case c >= '0' && c <= '9':
+		cls = "digit"
+	default:
+		cls = "printable byte"
 	}
-	if has(func(c byte) bool { return c == '\\' }) {
-		fs = append(fs, "backslash")
+	if i+1 < len(want) && want[i+1] >= '0' && want[i+1] <= '9' && (c < 0x20 || c >= 0x7f) {
+		cls += " followed by a digit"
 	}
-	if has(func(c byte) bool { return c == 0x7f }) {
-		fs = append(fs, "del")
+	if i >= len(got) {
+		return "output ends before a " + cls
 	}
-	if has(func(c byte) bool { return c >= 0x80 }) {
-		fs = append(fs, "high")
-	}
-	for i := 0; i+1 < len(b); i++ {
-		if (b[i] < 0x20 || b[i] >= 0x7f) && b[i+1] >= '0' && b[i+1] <= '9' {
-			fs = append(fs, "escaped-byte-then-digit")
-			break
-		}
-	}
-	if len(fs) == 0 {
-		return "printable"
-	}
-	return strings.Join(fs, "+")
+	return "first wrong byte is a " + cls
 }
 
 func TestC26(t *testing.T) {
